@@ -17,6 +17,9 @@ structure Entry where
   sig : Nat := 0
   nsSigOk : Bool := true
   authorSigOk : Bool := true
+  /-- `RangeEntry::as_fingerprint`: BLAKE3 over namespace ‖ author ‖ key ‖ timestamp ‖ hash. The hash
+  function is outside the model; the harness supplies the value with the entry. -/
+  fp : Bytes := []
 deriving DecidableEq, Repr, Inhabited
 
 namespace Entry
